@@ -25,6 +25,7 @@ type parser struct {
 	cbNames map[string]int
 	loop    int // nesting depth of loops (for break/continue checks)
 	sw      int // nesting depth of switches
+	civ     *inv
 }
 
 type parseErr struct{ err error }
@@ -828,7 +829,7 @@ func (p *parser) parseGlobalVar(q quals, base *Type, nm *token) {
 	if p.accept("=") {
 		sym.init = p.parseInitialiser(t, nm.line)
 	} else if q.konst && sym.store == stStatic {
-		p.fail(nm.line, "static const %q without initialiser", nm.s)
+		p.unsup(nm.line, "static const %q without initialiser", nm.s)
 	}
 	p.declare(sym, "global")
 	if sym.store != stNone {
@@ -1335,7 +1336,7 @@ func (p *parser) parseLocalDecl(out *[]*stmt) {
 			if p.accept("=") {
 				s.e = p.parseInitialiser(st, nm.line)
 			} else if q.konst {
-				p.fail(nm.line, "const %q without initialiser", nm.s)
+				p.unsup(nm.line, "const %q without initialiser", nm.s)
 			}
 		}
 		sym := &symbol{name: nm.s, kind: symVar, t: st, store: stLocal, off: p.fn.frame, isConst: q.konst, line: int(nm.line)}
